@@ -200,6 +200,20 @@ struct List
         emplace_impl(v, e, std::make_index_sequence<N>{});
     }
 
+    // emplace_back with the fields of an existing element (of the same vector) as arguments
+    template <class Vec, class Ref, std::size_t... I>
+    static void emplace_from_ref_impl(Vec& v, const Ref& r, std::index_sequence<I...>)
+    {
+        L().in_lib = true;
+        v.emplace_back(cntgs::get<I>(r)...);
+        L().in_lib = false;
+    }
+    template <class Vec, class Ref>
+    static void emplace_from_ref(Vec& v, const Ref& r)
+    {
+        emplace_from_ref_impl(v, r, std::make_index_sequence<N>{});
+    }
+
     template <std::size_t I, class Ref>
     static void read_field(const Ref& r, std::vector<int>& out)
     {
